@@ -112,7 +112,7 @@ impl LuaValue {
     /// possible and return the same value otherwise.
     pub fn string_coercion(self) -> Self {
         match &self {
-            Self::Number(value) => Some(Self::from(value.to_string())),
+            Self::Number(value) => lua_number_to_string(*value).map(Self::from),
             _ => None,
         }
         .unwrap_or(self)
@@ -125,6 +125,26 @@ impl LuaValue {
             _ => LuaValue::Unknown,
         }
     }
+}
+
+/// Formats a number like Lua's `tostring` when the result is known: Lua 5.1 uses `%.14g` and
+/// Luau the shortest representation that round-trips, with other thresholds for the exponent
+/// notation. They agree with Rust's formatting for numbers written in plain notation with at
+/// most 14 significant digits; any other number is left to the runtime.
+fn lua_number_to_string(value: f64) -> Option<String> {
+    let plain_notation =
+        value == 0.0 || (1e-4..1e14).contains(&value) || (1e-4..1e14).contains(&-value);
+    if !plain_notation {
+        return None;
+    }
+    let text = value.to_string();
+    let significant = text
+        .trim_start_matches(['-', '0', '.'])
+        .trim_end_matches('0')
+        .bytes()
+        .filter(u8::is_ascii_digit)
+        .count();
+    (significant <= 14).then_some(text)
 }
 
 impl From<bool> for LuaValue {
